@@ -298,6 +298,10 @@ fn matrix_case(cx: &mut Cx, tera: &Tera, s: &Spec, pool: &[V]) {
 
 // -------------------------------------------------------------------------------------------- laws
 
+static RANGE_MAX_PRODUCED: std::sync::atomic::AtomicU64 = std::sync::atomic::AtomicU64::new(0);
+static RANGE_MIN_REFUSED: std::sync::atomic::AtomicU64 = std::sync::atomic::AtomicU64::new(u64::MAX);
+use std::sync::atomic::Ordering;
+
 fn law_string(rng: &mut Rng) -> String {
     let p = ["a", "b", "Z", " ", "  ", "\n", "\r\n", "\t", "é", "É", "日", "ж", "Ж", "ω", "-", "'", "\"", "<", ">", "&", "x y", ".", "1", "_", "\u{a0}", "😀", "ab", "ba", "\r", "ß", "ǆ", "İ", "\u{2003}", "&amp;", "0"];
     let mut o = String::new();
@@ -879,13 +883,19 @@ fn law_case(cx: &mut Cx, t: &Tera, rng: &mut Rng) {
                     fail!("range-progression", rrp.clone(), "range(start={s}, end={e}, step_by={st}) has {got_n} elements ({} … {}), expected {n} from {s} to {last}", clip(&o, 30), &o[o.len().saturating_sub(30)..]);
                 }
                 cx.count("ranges_at_the_size_cap", 1);
+                RANGE_MAX_PRODUCED.fetch_max(n as u64, Ordering::Relaxed);
             }
         }
         (Err(msg), Some(n)) => {
-            // an error is documented for the size cap; long-standing behaviour also refuses start > end with a positive step
-            let refusable = n > 100_000 || (st > 0 && s > e);
-            if !refusable {
+            // an error is documented for the size cap, whose value no property fixes (100 000 today): ranges of up to
+            // 1000 elements must be produced, and above that the cap only has to be *a* cap — whatever is refused for
+            // its size must be larger than everything that was produced (checked at the end of the run). Long-standing
+            // behaviour also refuses start > end with a positive step.
+            let wrong_way = st > 0 && s > e;
+            if n <= 1000 && !wrong_way {
                 fail!("range-refused", rrp.clone(), "range(start={s}, end={e}, step_by={st}) ({n} elements) failed: {msg}");
+            } else if !wrong_way && n <= u64::MAX as u128 {
+                RANGE_MIN_REFUSED.fetch_min(n as u64, Ordering::Relaxed);
             }
         }
     }
@@ -914,5 +924,13 @@ pub fn run(cx: &mut Cx) {
                 law_case(cx, &laws, &mut rng);
             }
         }
+    }
+    // the size cap of range is a cap: nothing refused for its size is smaller than something that was produced
+    let (maxp, minr) = (RANGE_MAX_PRODUCED.load(Ordering::Relaxed), RANGE_MIN_REFUSED.load(Ordering::Relaxed));
+    if minr <= maxp {
+        cx.violation("C17/law/range-cap-not-monotone", format!("a range of {minr} elements was refused although one of {maxp} elements was produced"), json!({"min_refused": minr, "max_produced": maxp}));
+    }
+    if maxp > 0 {
+        cx.max("max:range_elements_produced", maxp);
     }
 }
